@@ -132,6 +132,9 @@ def g2_templates(full):
         ("g2:complex_edge", "x = (1e999j, -(0.0-2j), (1-0j), 1+0j, -(-1+0j), (1e999-1e999)*1j, -1j, 2.5-0j)\n"),
         ("g2:except_oneliner", "def f(t):\n    try:\n        g()\n    except OSError: pass\n    while t:\n        if t: break\n"),
         ("g2:class_twice", "class A: pass\nclass A: pass\n"),
+        ("g2:equal_lambdas_under_two_parents", "a = lambda: (lambda: 0); b = lambda x: (lambda: 0)\n"),
+        ("g2:finally_two_lambdas", "def f(a):\n    try:\n        if a: return 1\n    finally:\n        g = lambda: 1; h = lambda: 2\n    return g, h\n"),
+        ("g2:while_two_lambdas", "def f(a):\n    while (lambda: a)() and (lambda: 1)():\n        a -= 1\n    return a\n"),
         ("g2:finally_lambda", "def f(a):\n    try:\n        return a\n    finally:\n        g = lambda: 1\n"),
         ("g2:finally_genexp", "def f(a):\n    try:\n        if a: return 1\n    finally:\n        s = sum(i for i in a)\n    return s\n"),
         ("g2:surrogate_unicode_version", "x = '\\ud800\\U0001fae0'\ny = ('\\udfff\\U0001f9ff', '\\U0001fae0')\n"),
